@@ -408,6 +408,11 @@ func c11Projects(rng *rand.Rand) []project {
 		{Root: "{\n \"deep\": @d1\n}",
 			Types: []typeDef{{Name: "@d1", Text: "{\"x\": @d2}"}, {Name: "@d2", Text: "{\"y\": @d3, \"z\": [@d3]}"}, {Name: "@d3", Text: "{ // {allOf: \"@d4\"}\n \"w\": " + n() + "\n}"}, {Name: "@d4", Text: "{\"v\": \"" + w() + "\"}"}}},
 		{Root: "@a | @b", Types: []typeDef{{Name: "@a", Text: "\"" + w() + "\""}, {Name: "@b", Text: n()}}},
+		// or alternatives written as rule-sets and as names, with every format type: conversions of one shared
+		// object work on the rule-sets the schema keeps
+		{Root: "{\n \"a\": \"2021-01-02T07:23:1" + n()[:1] + "+03:00\", // {or: [{type: \"datetime\"}, {type: \"integer\"}]}\n \"b\": \"" + w() + "@example.com\", // {or: [{type: \"email\"}, {type: \"date\"}]}\n \"c\": \"https://example.com/" + w() + "\", // {or: [{type: \"uri\"}, {type: \"uuid\"}, \"datetime\"]}\n \"d\": " + n() + " // {or: [{type: \"integer\", min: 0}, {type: \"string\", maxLength: 3}, {type: \"@a\"}]}\n}",
+			Types: []typeDef{{Name: "@a", Text: "{\"a\": " + n() + "}"}}},
+		{Root: "\"2021-0" + n()[:1] + "-02\" // {or: [{type: \"date\"}, {type: \"datetime\"}, {type: \"float\", precision: 2}]}"},
 		// ---- rejected
 		{Root: "{\"u\": @missing, \"v\": " + n() + "}"},
 		{Root: "\"zzz\" // {enum: @status}", Rules: status},
